@@ -449,8 +449,26 @@ type PShapes struct {
 	LA []PShapeArr
 }
 
+// RecP: recursive types that carry pointer-receiver marshalers. Whether encoding/json uses the
+// methods depends on the addressability of each occurrence: reached through a pointer or a
+// slice it is addressable, as a map element or when the outer value was passed by value it is not.
+type RecP struct {
+	V    JSONP           `json:"v"`
+	T    TextP           `json:"t"`
+	Next *RecP           `json:"next,omitempty"`
+	Kids []RecP          `json:"kids,omitempty"`
+	Sub  map[string]RecP `json:"sub,omitempty"`
+}
+
+// RecM recurses through a map only.
+type RecM struct {
+	V   JSONP           `json:"v"`
+	Sub map[string]RecM `json:"sub,omitempty"`
+	Arr [1][]RecM       `json:"arr"`
+}
+
 // EncodeOnly are additional types for the encoding direction.
-var EncodeOnly = []reflect.Type{reflect.TypeOf(PtrKeyMap{}), reflect.TypeOf(PShapeJ{}), reflect.TypeOf(PShapeT{}), reflect.TypeOf(PShapeArr{}), reflect.TypeOf(PShapes{})}
+var EncodeOnly = []reflect.Type{reflect.TypeOf(RecP{}), reflect.TypeOf(RecM{}), reflect.TypeOf(PtrKeyMap{}), reflect.TypeOf(PShapeJ{}), reflect.TypeOf(PShapeT{}), reflect.TypeOf(PShapeArr{}), reflect.TypeOf(PShapes{})}
 
 // All is the list handed to the generators.
 var All = []reflect.Type{
